@@ -20,7 +20,7 @@ class HistProp(object):
     self.depth = depth
     self.origins = origins or {'quick': ('L',), 'thorough': ('L', 'I')}
     self.rule = rule
-    self.budget = budget or {'quick': 240, 'thorough': 1200}
+    self.budget = budget or {'quick': 900, 'thorough': 1200}
     self.assumptions = list(assumptions)
     self.split = split or {'quick': 1, 'thorough': 2}
     self.depth_by_origin = depth_by_origin or {}
